@@ -253,12 +253,12 @@ Proof.
     constructor; [apply q_piece_ok|apply note_pieces_ok].
 Qed.
 
-Lemma explicit_url_ok strict cfg ep :
+Lemma std_url_ok strict cfg ep :
   base_ok cfg = true -> args_finite ep = true ->
   (strict = true -> bbox_six_decimals ep = true) ->
-  request_ok_at strict cfg ep (explicit_url cfg ep) = true.
+  request_ok_at strict cfg ep (explicit_url_std cfg ep) = true.
 Proof.
-  intros Hb Hf Hs. unfold request_ok_at, explicit_url.
+  intros Hb Hf Hs. unfold request_ok_at, explicit_url_std.
   pose proof (explicit_query_ok strict ep Hf Hs) as Hq.
   destruct (explicit_query ep) as [q|].
   - rewrite app_assoc, (split_target_query _ _ (base_path_noq cfg ep Hb)).
@@ -266,6 +266,47 @@ Proof.
     destruct Hq as [kvs [Hd Hok]]. rewrite Hd. exact Hok.
   - rewrite app_nil_r, (split_target_noquery _ (base_path_noq cfg ep Hb)).
     rewrite base_url_spec, str_eqb_refl, Hq. reflexivity.
+Qed.
+
+(* the shape without a dangling '?' / '&' when no feature option is given *)
+Lemma alt_url_ok strict cfg ep :
+  base_ok cfg = true -> args_finite ep = true ->
+  (strict = true -> bbox_six_decimals ep = true) -> no_fopts ep = true ->
+  request_ok_at strict cfg ep (alt_url cfg ep) = true.
+Proof.
+  intros Hb Hf Hs Hn. unfold request_ok_at, alt_url.
+  assert (Hcore : match core_query ep with
+                  | None => spec_query ep = []
+                  | Some q => exists kvs, decode_query q = Some kvs /\
+                                          query_ok strict (spec_query ep) kvs = true
+                  end).
+  { destruct ep as [e id o|e ids o|e id v|e id|id o|e id o|e id o|b o|id|id|id|id|b os|q os|id];
+      try discriminate Hn; destruct o; try discriminate Hn; cbn [core_query spec_query map].
+    - reflexivity.
+    - apply (decode_join strict [plural e ++ lit "=" ++ idlist ids] [(plural e, QText (idlist ids))]).
+      constructor; [apply ids_piece_ok|constructor].
+    - reflexivity.
+    - reflexivity.
+    - reflexivity.
+    - apply (decode_join strict [bbox_piece b] [(lit "bbox", QBBox b)]).
+      constructor; [apply bbox_piece_ok; assumption|constructor]. }
+  destruct (core_query ep) as [q|].
+  - rewrite app_assoc, (split_target_query _ _ (base_path_noq cfg ep Hb)).
+    rewrite base_url_spec, str_eqb_refl. cbn [andb].
+    destruct Hcore as [kvs [Hd Hok]]. rewrite Hd. exact Hok.
+  - rewrite app_nil_r, (split_target_noquery _ (base_path_noq cfg ep Hb)).
+    rewrite base_url_spec, str_eqb_refl, Hcore. reflexivity.
+Qed.
+
+Lemma explicit_url_ok strict cfg ep :
+  base_ok cfg = true -> options_valid ep = true -> args_finite ep = true ->
+  (strict = true -> bbox_six_decimals ep = true) ->
+  request_ok_at strict cfg ep (explicit_url cfg ep) = true.
+Proof.
+  intros Hb Hv Hf Hs. unfold explicit_url.
+  destruct (url_of_shape cfg ep Hv) as [H|[Hn H]]; rewrite H.
+  - apply std_url_ok; assumption.
+  - apply alt_url_ok; assumption.
 Qed.
 
 (* url_matches_spec: for every call, all ids, id lists, option lists, queries and bases *)
